@@ -287,7 +287,7 @@ func (cl *CollectorWorker) processSpan(ctx context.Context, sp *types.Span) {
 	// great! trace is live. add the span.
 	trace.AddSpan(sp)
 	defer func() {
-		verifEmit("buffered", "w", cl.ID, "t", sp.TraceID, "n", trace.DescendantCount(), "send_by", trace.SendBy)
+		verifEmit("buffered", "w", cl.ID, "t", sp.TraceID, "n", trace.DescendantCount(), "send_by", trace.SendBy, "span", sp)
 	}()
 
 	// we may override these values in conditions below
